@@ -132,6 +132,37 @@ func parse(src string, x interface{}) call {
 	}
 }
 
+// bigTemplate: about 3 KB of text with n print tags and a few block tags, every line marked with tag
+func bigTemplate(tag string, n int) string {
+	var sb strings.Builder
+	for i := 0; i < n; i++ {
+		sb.WriteString("<li class=\"" + tag + "-row-" + fmt.Sprint(i) + "-padding-padding-padding-padding\">" + tag + "{{ x }}{% if x %}+{% endif %}</li>\n")
+	}
+	return sb.String()
+}
+
+// parseDigest parses and renders src and reports a short digest of the output (marker letters seen,
+// length) instead of 3 KB of text
+func parseDigest(src string, x interface{}) call {
+	return func(w *world) string {
+		t, err := w.e.ParseTemplate(src)
+		if err != nil {
+			return "ERR " + firstLine(err.Error())
+		}
+		out, err := t.Render(ctxFor(x))
+		if err != nil {
+			return "ERR " + firstLine(err.Error())
+		}
+		seen := ""
+		for _, m := range []string{"W", "A", "B"} {
+			if strings.Contains(out, "\">"+m) {
+				seen += m
+			}
+		}
+		return fmt.Sprintf("len=%d markers=%s x=%d", len(out), seen, strings.Count(out, fmt.Sprint(x)+"+"))
+	}
+}
+
 func firstLine(s string) string {
 	if i := strings.IndexByte(s, '\n'); i >= 0 {
 		s = s[:i]
@@ -155,6 +186,14 @@ func scenarios() []scenario {
 			threads: [][]call{{reg("n1", "A:{{ x }}{% if x %}y{% endif %}"), rc("n1", 1)}, {parse("B{% for i in xs %}{{ i }}{% endfor %}", 2)}}},
 		{name: "S1b ParseTemplate || ParseTemplate", setup: cold, modes: []string{"cache-on"},
 			threads: [][]call{{parse("A:{{ x }}{% if x %}y{% endif %}", 1)}, {parse("B{% for i in xs %}{{ i }}{% endfor %}", 2)}}},
+		{name: "S1c ParseTemplate || ParseTemplate of 3 KB templates after a warm-up parse (tokenizer buffers have to grow)", setup: func(mode string) *world {
+			w := newEngine(mode, nil, false)
+			if t, err := w.e.ParseTemplate(bigTemplate("W", 30)); err == nil {
+				t.Render(ctxFor(0))
+			}
+			return w
+		}, modes: []string{"cache-on"}, quickK: 1, thoroughK: 2,
+			threads: [][]call{{parseDigest(bigTemplate("A", 34), 1)}, {parseDigest(bigTemplate("B", 38), 2)}}},
 		{name: "S2 relative includes in two directories", setup: warmAll("a/main", "b/main", "a/part", "b/part"), modes: allModes,
 			threads: [][]call{{rc("a/main", 1)}, {rc("b/main", 2)}}},
 		{name: "S2b relative extends+import in two directories", setup: warmAll("a/sub/page", "b/sub/page", "a/base", "b/base", "a/sub/m", "b/sub/m"), modes: []string{"cache-on", "auto-reload"},
